@@ -1098,6 +1098,27 @@ func getElementsInRLE(ctx *datastore.VersionedCtx, brles dvid.BlockRLEs) (Elemen
 	return rleElems, nil
 }
 
+// validate returns an error if the elements cannot be indexed consistently: two elements at one
+// position or a repeated tag would get duplicate entries in the block, tag and label lists.
+func (elems Elements) validate() error {
+	seen := make(map[string]struct{}, len(elems))
+	for _, elem := range elems {
+		key := elem.Pos.MapKey()
+		if _, found := seen[key]; found {
+			return fmt.Errorf("more than one element at position %s", elem.Pos)
+		}
+		seen[key] = struct{}{}
+		tags := make(map[Tag]struct{}, len(elem.Tags))
+		for _, tag := range elem.Tags {
+			if _, found := tags[tag]; found {
+				return fmt.Errorf("element at %s has tag %q more than once", elem.Pos, tag)
+			}
+			tags[tag] = struct{}{}
+		}
+	}
+	return nil
+}
+
 type tagDeltaT struct {
 	add   ElementsNR          // elements to add or modify
 	erase map[string]struct{} // points to erase
@@ -2238,6 +2259,7 @@ func (d *Data) StoreBlocks(ctx *datastore.VersionedCtx, r io.Reader, kafkaOff bo
 	}
 	batch := batcher.NewBatch(ctx)
 
+	blockSize := d.blockSize()
 	var blockX, blockY, blockZ int32
 	for key, elems := range blocks {
 		_, err := fmt.Sscanf(key, "%d,%d,%d", &blockX, &blockY, &blockZ)
@@ -2245,6 +2267,15 @@ func (d *Data) StoreBlocks(ctx *datastore.VersionedCtx, r io.Reader, kafkaOff bo
 			return 0, err
 		}
 		blockCoord := dvid.ChunkPoint3d{blockX, blockY, blockZ}
+		// nothing is written before the batch commit below, so a rejected block rejects the request
+		if err := elems.validate(); err != nil {
+			return 0, fmt.Errorf("block %s: %v", blockCoord, err)
+		}
+		for _, elem := range elems {
+			if !blockCoord.Equals(elem.Pos.Chunk(blockSize).(dvid.ChunkPoint3d)) {
+				return 0, fmt.Errorf("element at %s is not in block %s (block size %s)", elem.Pos, blockCoord, blockSize)
+			}
+		}
 		tk := NewBlockTKey(blockCoord)
 		if err := putBatchElements(batch, tk, elems); err != nil {
 			return 0, err
@@ -2288,6 +2319,9 @@ func (d *Data) StoreElements(ctx *datastore.VersionedCtx, r io.Reader, kafkaOff 
 	}
 	var elems Elements
 	if err := json.Unmarshal(jsonBytes, &elems); err != nil {
+		return err
+	}
+	if err := elems.validate(); err != nil {
 		return err
 	}
 
